@@ -488,6 +488,116 @@ pub fn run(report: &Report, thorough: bool) -> Evidence {
         parts.insert("long_warm_histories".into(), json!({"words_per_history": seq.len(), "orders": orders.len(), "configurations": 2, "renderings_compared": warm_cmp.load(Ordering::Relaxed)}));
     }
 
+    // ---------------- (5) detours inside long words ----------------
+    // The BFS alphabets are four or five characters and its depth 4-8. Here the target texts are LONG real words (bundled
+    // auto-correct keys, base + suffix words, emoji names): at every position of the word one of three detours is made (a
+    // letter typed and removed; the last character removed and typed again; two letters typed and removed), in ONE long-lived
+    // context, and everything shown from the next key on is compared with the default execution (the word typed directly in
+    // a newly created method); the list shown right after the detour is compared with the one shown before it when both
+    // followed a backspace, and with the direct one otherwise.
+    if crate::par::part_enabled("detour") {
+        let dict = crate::data::Dict::load(&real_db());
+        let mut ws: Vec<String> = dict.autocorrect.keys().filter(|k| k.len() >= 5 && k.chars().all(|c| c.is_ascii_alphabetic())).cloned().collect();
+        ws.sort();
+        let stride = if thorough { 1 } else { 10 };
+        let mut ws: Vec<String> = ws.into_iter().step_by(stride).collect();
+        for w in ["asgulo", "kothagulo", "amader", "manushera", "somoyer", "phulgulo", "Deshe", "bangladesh", "heart", "smile", "koreChilam", "shikkhaprotishThan"] {
+            ws.push(w.to_string());
+        }
+        let det_cmp = AtomicU64::new(0);
+        let det_hist = AtomicU64::new(0);
+        let chunk = 16;
+        let jobs = (ws.len() + chunk - 1) / chunk;
+        par_for(
+            jobs * 2,
+            1,
+            |w| scratch_xdg(&format!("c05d-{}", w)),
+            |xdg, idx| {
+                let mut o = Opts::phonetic(&real_db(), xdg);
+                o.english = idx % 2 == 1;
+                crate::drv::clear_user_files(&o);
+                let mut live = Ctx::new(&o).expect("ctx");
+                live.with_pre = false;
+                let mut o2 = o.clone();
+                o2.xdg = format!("{}-twin", xdg);
+                std::fs::create_dir_all(o2.user_dir()).expect("dir");
+                let mut twin = Ctx::new(&o2).expect("ctx");
+                twin.with_pre = false;
+                let files = BTreeMap::new();
+                let j = idx / 2;
+                for w in &ws[j * chunk..((j + 1) * chunk).min(ws.len())] {
+                    let cs: Vec<char> = w.chars().collect();
+                    let _ = histgraph::fresh(&mut twin, &files);
+                    let mut exp = vec![];
+                    for &c in &cs {
+                        match twin.ch(c) {
+                            Ok(r) => exp.push(r),
+                            Err(_) => break,
+                        }
+                    }
+                    if exp.len() != cs.len() {
+                        continue; // a failing direct execution is C01's business
+                    }
+                    for i in 1..=cs.len() {
+                        for kind in 0..3 {
+                            let mut evs: Vec<Ev> = cs[..i].iter().map(|&c| Ev::ch(c)).collect();
+                            match kind {
+                                0 => evs.extend([Ev::ch('k'), Ev::Bs]),
+                                1 => evs.extend([Ev::Bs, Ev::ch(cs[i - 1])]),
+                                _ => evs.extend([Ev::ch('o'), Ev::ch('r'), Ev::Bs, Ev::Bs]),
+                            }
+                            let detour_end = evs.len();
+                            evs.extend(cs[i..].iter().map(|&c| Ev::ch(c)));
+                            let _ = live.apply(&Ev::Finish);
+                            det_hist.fetch_add(1, Ordering::Relaxed);
+                            let mut bad: Option<(usize, String)> = None;
+                            for (n, e) in evs.iter().enumerate() {
+                                match live.apply(e) {
+                                    Ok(crate::drv::Out::Sugg(r)) => {
+                                        // text after event n: compare when it is a key press that leaves a prefix of the word
+                                        let want = if n + 1 == detour_end && kind == 1 {
+                                            Some(&exp[i - 1])
+                                        } else if n >= detour_end {
+                                            Some(&exp[i + (n - detour_end)])
+                                        } else if n < i {
+                                            Some(&exp[n])
+                                        } else {
+                                            None
+                                        };
+                                        if let Some(x) = want {
+                                            det_cmp.fetch_add(1, Ordering::Relaxed);
+                                            if &r != x && bad.is_none() {
+                                                bad = Some((n, format!("after event {} of the history the context shows {} but the word typed directly in a new context shows {}", n + 1, r.to_json(), x.to_json())));
+                                            }
+                                        }
+                                    }
+                                    Ok(_) => {}
+                                    Err(f) => {
+                                        report.add(fail_violation("C05", &f, &live.opts, &evs[..=n]));
+                                        break;
+                                    }
+                                }
+                            }
+                            if let Some((n, d)) = bad {
+                                report.add(
+                                    Violation::new("C05", "history-dependent-suggestion", &format!("history-dependent:detour-{}", kind))
+                                        .opts(&live.opts)
+                                        .events(&evs[..=n])
+                                        .feat("text", w.clone())
+                                        .detail(format!("word {:?}, detour kind {} after {} characters: {}", w, kind, i, d)),
+                                );
+                            }
+                        }
+                    }
+                }
+            },
+            |_| (),
+        );
+        compared.fetch_add(det_cmp.load(Ordering::Relaxed), Ordering::Relaxed);
+        transitions += det_cmp.load(Ordering::Relaxed);
+        parts.insert("detours_inside_long_words".into(), json!({"words": ws.len(), "detour_kinds": 3, "histories": det_hist.load(Ordering::Relaxed), "configurations": 2, "renderings_compared": det_cmp.load(Ordering::Relaxed)}));
+    }
+
     let statics = scan_statics();
     let mut ev = Evidence::new("C05", &report.tier, "model_checking");
     ev.set("states", states.max(1));
